@@ -364,7 +364,16 @@ type wProf struct {
 	tombDevs []*wDev
 }
 
+type pools struct {
+	prof   []agd.ProfileID
+	dev    []agd.DeviceID
+	linked []netip.Addr
+	ded    []netip.Addr
+	hid    []agd.HumanIDLower
+}
+
 type world struct {
+	pl    *pools
 	profs   map[agd.ProfileID]*wProf
 	devs    map[agd.DeviceID]*wDev
 	devVers map[agd.DeviceID]int
@@ -376,8 +385,9 @@ type world struct {
 	log     []string
 }
 
-func newWorld(base time.Time, noReuse bool) *world {
+func newWorld(base time.Time, noReuse bool, pl *pools) *world {
 	return &world{
+		pl: pl,
 		profs: map[agd.ProfileID]*wProf{}, devs: map[agd.DeviceID]*wDev{}, devVers: map[agd.DeviceID]int{},
 		epoch: 1, base: base, retired: map[string]bool{}, noReuse: noReuse, everDev: map[agd.DeviceID]bool{},
 	}
@@ -807,8 +817,14 @@ func (q *quiesce) alive() int { return runtime.NumGoroutine() - q.baseline }
 
 // settle waits until every live clean-up goroutine is parked.  It is not a
 // verdict: a time-out only makes the case inconclusive.
+var settleNanos, settleCalls, settleSlow int64
+
 func (q *quiesce) settle() bool {
 	start := time.Now()
+	defer func() {
+		settleNanos += int64(time.Since(start))
+		settleCalls++
+	}()
 	for i := 0; ; i++ {
 		if q.alive() == q.h.nParked() {
 			return true
